@@ -25,7 +25,7 @@ ENCODED = ["twisted.conch.ssh.channel:SSHChannel.write", "twisted.conch.ssh.chan
            "twisted.conch.ssh.connection:SSHConnection.ssh_CHANNEL_EXTENDED_DATA",
            "twisted.conch.ssh.connection:SSHConnection.adjustWindow",
            "twisted.conch.ssh.connection:SSHConnection.sendClose"]
-BOUNDS = {"quick": {"pk": 2, "hpk": 1, "hist": 3, "d": 3, "cap": 1 << 20},
+BOUNDS = {"quick": {"pk": 2, "hpk": 1, "hist": 4, "d": 3, "cap": 1 << 20},
           "thorough": {"pk": 3, "hpk": 2, "hist": 4, "d": 4, "cap": 1 << 20}}
 B = {}
 BOUNDS_TEXT = ("sender, inductive steps: remote window any int >= 0, max packet any int >= 1, buffered normal data "
@@ -363,6 +363,13 @@ def step_lose(w: int, m: int, p0: int, bl: int, ne: int, t1: int, p1: int, l1: i
     return bool(ch.localClosed) == (bl == 0 and ne == 0) and bool(ch.closing)
 
 
+def _concrete(d, top):
+    for k in range(top + 1):
+        if d == k:
+            return k
+    return top
+
+
 _BASE = (0, 4 << 20, 8 << 20)      # master-stream region of each stream: normal, extended 1, extended 2
 
 
@@ -399,22 +406,27 @@ def _account(ch, conn, wp, m, sent, written, lost):
     return _inv(ch)
 
 
-def history(w0: int, m: int, ops: List[int], ns: List[int]) -> bool:
+def history(w0: int, m: int, o0: int, n0: int, o1: int, n1: int, o2: int, n2: int, o3: int, n3: int) -> bool:
     """
     pre: m >= 1 and 0 <= w0 <= B['cap'] and m <= B['cap']
-    pre: 1 <= len(ops) <= B['hist'] and len(ns) == len(ops)
-    pre: all(0 <= o <= 4 for o in ops)
-    pre: all(0 <= n <= B['hpk'] * m and n <= B['cap'] for n in ns)
+    pre: 0 <= o0 <= 4 and 0 <= o1 <= 4 and 0 <= o2 <= 4 and 0 <= o3 <= 5
+    pre: o3 == 5 or B['hist'] >= 4
+    pre: 0 <= n0 <= B['hpk'] * m and 0 <= n1 <= B['hpk'] * m and 0 <= n2 <= B['hpk'] * m and 0 <= n3 <= B['hpk'] * m
+    pre: n0 <= B['cap'] and n1 <= B['cap'] and n2 <= B['cap'] and n3 <= B['cap']
     post: _
     """
+    ops = [o0, o1, o2, o3]
+    ns = [n0, n1, n2, n3]
     rope.reset()
     ch, conn = _mk(w0, m, rope.empty(), [], False)
     written = [0, 0, 0]
     sent = [0, 0, 0]
     lost = False
     for i in range(len(ops)):
-        o = ops[i]
+        o = _concrete(ops[i], 5)    # one path family per operation kind
         n = ns[i]
+        if o == 5:
+            continue            # unused slot
         del conn.log[:]
         wp = ch.remoteWindowLeft
         if o <= 2:
@@ -506,13 +518,6 @@ class _RecvChannel(_chmod.SSHChannel):
 _PAYLOAD = b"abcdefgh"
 
 
-def _concrete(d, top):
-    for k in range(top + 1):
-        if d == k:
-            return k
-    return top
-
-
 def recv(ws: int, wl: int, mp: int, d1: int, e1: bool, d2: int, e2: bool) -> bool:
     """
     pre: 1 <= ws <= 0xFFFFFFFF and 0 <= wl <= ws and 1 <= mp <= 0xFFFFFFFF
@@ -580,7 +585,7 @@ HARNESSES = [
     H(step_writeext, shards=_ST, timeout={"quick": 60, "thorough": 600}),
     H(step_addwindow, shards=_ST, timeout={"quick": 60, "thorough": 900}),
     H(step_lose, shards=[("ne == 0",), ("ne == 1",), ("ne == 2",)], timeout={"quick": 60, "thorough": 300}),
-    H(history, shards=lambda tier: [("len(ops) == %d" % BOUNDS[tier]["hist"], "ops[0] == %d" % a, "ops[1] == %d" % b2)
+    H(history, shards=lambda tier: [("o0 == %d" % a, "o1 == %d" % b2) + (("o3 == 5", "n3 == 0") if BOUNDS[tier]["hist"] < 4 else ())
                                     for a in range(5) for b2 in range(5)],
       timeout={"quick": 60, "thorough": 900}),
     H(recv, shards=[("e1 == False",), ("e1 == True",)], labels=("end", "refused"),
@@ -593,7 +598,7 @@ VECTORS = {
                       (0, 2, 0, 0, 1, 1, 30, 2, 2, 0, 0, True, 2, 40, 1)],
     "step_addwindow": [(0, 2, 0, 3, 1, 1, 10, 2, 2, 20, 0, True, 9), (0, 2, 0, 3, 1, 1, 10, 2, 2, 20, 0, False, 4)],
     "step_lose": [(4, 2, 0, 0, 0, 1, 0, 1, 2, 0, 0, False), (0, 2, 0, 2, 0, 1, 0, 1, 2, 0, 0, False)],
-    "history": [(3, 2, [0, 1, 4], [5, 2, 0]), (0, 1, [2, 3, 0], [2, 1, 2])],
+    "history": [(3, 2, 0, 2, 1, 2, 4, 0, 5, 0), (0, 1, 2, 1, 3, 1, 0, 1, 5, 0), (1, 3, 1, 3, 2, 2, 4, 0, 5, 0)],
     "recv": [(10, 10, 4, 3, False, 3, True), (10, 2, 4, 3, False, 0, False), (1, 1, 1, 1, False, 0, False)],
 }
 
